@@ -194,7 +194,7 @@ func init() {
 		Rule: "deviation-bounded histories (<=k inserted/substituted events from the full message alphabet, every message type in valid/boundary/malformed variants, 8 block gaps from 1ms to 21d+1s) around 7 skeletons on the real app; every history run to a 9-block quiescence horizon; oracle: Pre/Begin/EndBlocker never error or panic",
 		Assume: []string{"at least one bonded validator with a registered EVM address exists from height 2 (operator obligation; DESIGN §2.6)",
 			"signature/fee/sequence ante decorators are SDK code and not executed; the repository's stake-change decorator is", "IBC/ICQ/group/authz messages and x/slashing evidence are outside the alphabet"},
-		QuickBudget: 4 * time.Minute, ThoroughBudget: 15 * time.Minute,
+		QuickBudget: 10 * time.Minute, ThoroughBudget: 15 * time.Minute,
 	})
 }
 
